@@ -112,3 +112,28 @@ package analysis
 //@   invariant [files_so_far] len(conflicts) == 0 ==> (forall k int :: {fileOutputs[k]} 0 <= k && k <= rangeindex ==>
 //@        orderedT(graph, dirRecord.target, fileOutputs[k].target) ||
 //@        !(fileOutputs[k].path == dirRecord.path || hasPrefix(fileOutputs[k].path, dirRecord.path + "/")))
+
+// C11: "a non-test target depending on a test target, a non-testonly non-test target depending on a testonly target
+// (directly or through an alias)". resolvedTarget(m, l) names the target a dependency label resolves to through aliases
+// (nil if it resolves to nothing); the resolution loop itself is under an assumed contract.
+//@ func resolveDependencyTarget(nodeMap, dependencyLabel) (r)
+//@   trusted
+//@   pure
+//@   ensures [named] r == resolvedTarget(nodeMap, dependencyLabel)
+//@   ensures [direct_target] has(nodeMap, dependencyLabel) && typeIs(nodeMap[dependencyLabel], "*model.Target") ==> r == asPtr(nodeMap[dependencyLabel], "*model.Target")
+
+//@ func checkDependencyConstraints(nodeMap) (errs)
+//@   pure
+//@   ensures [bad_dependency_rejected] len(errs) == 0 ==> (forall i int, j int :: {nodesAlpha(nodeMap)[i], asPtr(nodesAlpha(nodeMap)[i], "*model.Target").Dependencies[j]}
+//@        0 <= i && i < len(nodesAlpha(nodeMap)) && typeIs(nodesAlpha(nodeMap)[i], "*model.Target") && 0 <= j && j < len(asPtr(nodesAlpha(nodeMap)[i], "*model.Target").Dependencies) ==>
+//@        depRuleOK(asPtr(nodesAlpha(nodeMap)[i], "*model.Target"), resolvedTarget(nodeMap, asPtr(nodesAlpha(nodeMap)[i], "*model.Target").Dependencies[j])))
+//@ loop #1
+//@   invariant [targets_so_far] len(errs) >= 0 && (len(errs) == 0 ==> (forall i int, j int :: {nodesAlpha(nodeMap)[i], asPtr(nodesAlpha(nodeMap)[i], "*model.Target").Dependencies[j]}
+//@        0 <= i && i <= rangeindex && typeIs(nodesAlpha(nodeMap)[i], "*model.Target") && 0 <= j && j < len(asPtr(nodesAlpha(nodeMap)[i], "*model.Target").Dependencies) ==>
+//@        depRuleOK(asPtr(nodesAlpha(nodeMap)[i], "*model.Target"), resolvedTarget(nodeMap, asPtr(nodesAlpha(nodeMap)[i], "*model.Target").Dependencies[j]))))
+//@   invariant [same_list] ranged() == nodesAlpha(nodeMap)
+//@ loop #2
+//@   invariant [targets_so_far] len(errs) >= 0 && (len(errs) == 0 ==> (forall i int, j int :: {nodesAlpha(nodeMap)[i], asPtr(nodesAlpha(nodeMap)[i], "*model.Target").Dependencies[j]}
+//@        0 <= i && i < rangeindex#1 && typeIs(nodesAlpha(nodeMap)[i], "*model.Target") && 0 <= j && j < len(asPtr(nodesAlpha(nodeMap)[i], "*model.Target").Dependencies) ==>
+//@        depRuleOK(asPtr(nodesAlpha(nodeMap)[i], "*model.Target"), resolvedTarget(nodeMap, asPtr(nodesAlpha(nodeMap)[i], "*model.Target").Dependencies[j]))))
+//@   invariant [deps_so_far] len(errs) == 0 ==> (forall j int :: {target.Dependencies[j]} 0 <= j && j <= rangeindex ==> depRuleOK(target, resolvedTarget(nodeMap, target.Dependencies[j])))
